@@ -7,7 +7,7 @@
 
 use std::cell::Cell;
 use std::sync::atomic::{AtomicU32, AtomicU64, Ordering};
-use std::sync::{Arc, Mutex, OnceLock};
+use std::sync::{Arc, OnceLock};
 
 use crate::clock::LogicalClock;
 use crate::compaction::leveled::Strategy;
@@ -145,36 +145,41 @@ struct FailState {
 	hits: u64,
 }
 
-static FAIL: Mutex<FailState> = Mutex::new(FailState {
-	spec: None,
-	hits: 0,
-});
+// Thread-local: a fault is armed by, and fires on, the thread that runs the commit, so
+// executions running in parallel on other threads are not disturbed.
+thread_local! {
+	static FAIL: std::cell::RefCell<FailState> = const { std::cell::RefCell::new(FailState { spec: None, hits: 0 }) };
+}
 
 pub fn arm_fail_point(spec: Option<FailSpec>) {
-	let mut g = FAIL.lock().unwrap();
-	g.spec = spec;
-	g.hits = 0;
+	FAIL.with(|f| {
+		let mut g = f.borrow_mut();
+		g.spec = spec;
+		g.hits = 0;
+	});
 }
 
 pub(crate) fn fail_point(id: &'static str) -> Result<()> {
-	let mut g = FAIL.lock().unwrap();
-	let Some(spec) = g.spec.clone() else {
-		return Ok(());
-	};
-	if spec.point != id {
-		return Ok(());
-	}
-	g.hits += 1;
-	let fire = if spec.persistent {
-		g.hits >= spec.nth
-	} else {
-		g.hits == spec.nth
-	};
-	if fire {
-		Err(Error::Other(format!("verif: injected failure at {id}")))
-	} else {
-		Ok(())
-	}
+	FAIL.with(|f| {
+		let mut g = f.borrow_mut();
+		let Some(spec) = g.spec.clone() else {
+			return Ok(());
+		};
+		if spec.point != id {
+			return Ok(());
+		}
+		g.hits += 1;
+		let fire = if spec.persistent {
+			g.hits >= spec.nth
+		} else {
+			g.hits == spec.nth
+		};
+		if fire {
+			Err(Error::Other(format!("verif: injected failure at {id}")))
+		} else {
+			Ok(())
+		}
+	})
 }
 
 /// A logical clock fully controlled by the harness.
